@@ -115,7 +115,11 @@ impl Proj {
             let d = u32::from_be_bytes([ip.l4_bytes[8], ip.l4_bytes[9], ip.l4_bytes[10], ip.l4_bytes[11]]);
             if self.sizes.contains_key(&d) {
                 did = d as i64;
-                self.ident2did.insert((from, ip.ident), d);
+                // only a first fragment names the datagram of the fragments that follow; whole packets all carry
+                // identification 0 and must not claim it
+                if ip.mf {
+                    self.ident2did.insert((from, ip.ident), d);
+                }
             }
         } else if let Some(d) = self.ident2did.get(&(from, ip.ident)) {
             did = *d as i64;
